@@ -263,7 +263,7 @@ def run_in_child(bodies: list[t.Callable[[], t.Any]], schedule: dict[int, int], 
     SCHED.sems[first].release()
     hung = False
     for th in ths:
-        th.join(20)
+        th.join(90)  # real-time guard only for hangs outside the virtual locks; normal executions take < 1 s
         if th.is_alive():
             hung = True
     registry = {}
